@@ -2723,6 +2723,7 @@ ErrorCode gds_info(const char* filename, LibraryInfo& info) {
                 next_set = &info.shape_tags;
                 break;
             case GdsiiRecord::PATH:
+            case GdsiiRecord::RAITHMBMSPATH:
                 info.num_paths++;
                 next_set = &info.shape_tags;
                 break;
